@@ -33,10 +33,10 @@ class Isa:
         raise NotImplementedError
 
     def falls(self, ins):
-        return ins[0] in ("o", "p", "jcc", "call", "icall", "lea", "nop")
+        return ins[0] in ("o", "p", "jcc", "call", "icall", "lea", "nop", "leaa", "callplt", "push", "pop")
 
     def is_cti(self, ins):
-        return ins[0] in ("jmp", "jcc", "call", "ret", "ijmp", "icall")
+        return ins[0] in ("jmp", "jcc", "call", "ret", "ijmp", "icall", "callplt")
 
     def size(self, ins):
         return len(self.enc(ins)[0])
@@ -69,6 +69,16 @@ class X64(Isa):
             return b"\xff\xd0", None
         if k == "lea":
             return b"\x48\x8d\x05\x00\x00\x00\x00", (3, 4, ins[1])
+        if k == "push":
+            return b"\x53", None  # push %rbx
+        if k == "pop":
+            return b"\x5b", None  # pop %rbx
+        if k == "leaa":  # lea with addend: ("leaa", L, addend)
+            return b"\x48\x8d\x05\x00\x00\x00\x00", (3, 4, ins[1], ins[2], ())
+        if k == "callplt":
+            return b"\xe8\x00\x00\x00\x00", (1, 4, ins[1], 0, ("PLT",))
+        if k == "qa":  # data word with addend
+            return b"\x00" * 8, (0, 8, ins[1], ins[2], ())
         if k == "d":
             return bytes([ins[1]]), None
         if k == "q":
@@ -79,6 +89,16 @@ class X64(Isa):
 
     def asm(self, ins):
         k = ins[0]
+        if k == "push":
+            return "pushq %rbx" if self.ptr == 8 else "pushl %ebx"
+        if k == "pop":
+            return "popq %rbx" if self.ptr == 8 else "popl %ebx"
+        if k == "leaa":
+            return "leaq %s%+d(%%rip), %%rax" % (ins[1], ins[2])
+        if k == "callplt":
+            return "call %s@PLT" % ins[1]
+        if k == "qa":
+            return ".quad %s%+d" % (ins[1], ins[2])
         if k == "o":
             return "movb $%d, %%al" % ins[1]
         if k == "p":
@@ -273,6 +293,10 @@ def decode_x64(isa, data, sym_at):
             out.append(("lea", sym_at(i + 2))); i += 6
         elif c == 0x90:
             out.append(("nop",)); i += 1
+        elif c == 0x53:
+            out.append(("push",)); i += 1
+        elif c == 0x5B:
+            out.append(("pop",)); i += 1
         else:
             raise ValueError("cannot table-decode byte %#x at %d of %s" % (c, i, data.hex()))
     return out
